@@ -88,7 +88,7 @@ CHECKS["C08"] = {
          "functions": ["KData::from(&EnergyProps)"]},
         {"name": "c08::k_permutation", "tier": "thorough", "bound": "2 walls + 1 window under two id assignments; " + GRIDK, "kani_args": NOOVF, "cbmc_args": FS2K, "stubs": FMT,
          "functions": ["KData::from(&EnergyProps)"]},
-        {"name": "c08::k_formula_222", "tier": "off", "mem_gb": 40, "bound": "2 walls + 2 windows + 2 bridges; " + GRIDK, "kani_args": NOOVF, "cbmc_args": FS2K, "stubs": FMT,
+        {"name": "c08::k_formula_222", "tier": "thorough", "mem_gb": 40, "timeout_thorough": 2700, "bound": "2 walls + 2 windows + 2 bridges; " + GRIDK, "kani_args": NOOVF, "cbmc_args": FS2K, "stubs": FMT,
          "functions": ["KData::from(&EnergyProps)"]},
     ],
 }
